@@ -158,7 +158,10 @@ func checkC09Dispatch(c *Ctx, n int) {
 // other, on whichever way the word reaches the field - as a plain word, behind the terminator,
 // behind the first plain word under PassAfterNonOption, or as an unknown option passed through
 // under IgnoreUnknown: the parse fails and the CommandHandler is not called.
-func checkC09BadPositional(c *Ctx, n int) {
+func checkC09BadPositional(c *Ctx, n int) { checkBadPositional(c, n, "C09") }
+
+// (also run for C03: a parse that SUCCEEDS here has dropped the token the field refused, and everything behind it)
+func checkBadPositional(c *Ctx, n int, prop string) {
 	r := c.Rng
 	for i := 0; i < n; i++ {
 		ty := []string{"int", "u8", "f64", "dur"}[r.Intn(4)]
@@ -212,7 +215,7 @@ func checkC09BadPositional(c *Ctx, n int) {
 		cs.Description = way + ": " + describeOps(cs)
 		c.RunCases([]*Case{cs}, func(cr *CaseResult) {
 			c.classifyCase(cr)
-			c.Class("c09/bad-positional: " + way + " type=" + ty)
+			c.Class(strings.ToLower(prop) + "/bad-positional: " + way + " type=" + ty)
 			var obs parseObs
 			for _, o := range parseBlocks(cr) {
 				obs = o
@@ -236,7 +239,7 @@ func checkC09BadPositional(c *Ctx, n int) {
 			if !ok {
 				in["case_file"] = c.saveCase(cr)
 			}
-			c.Check("unconvertible-positional-stops-everything", ok, "C09:bad-positional", in, got, want)
+			c.Check("unconvertible-positional-stops-everything", ok, prop+":bad-positional", in, got, want)
 		})
 	}
 }
